@@ -12,7 +12,7 @@ def stream_grad_model(chk, i, rng):
     g = fac()
     obj, ovo = gemlib.obj_of(g)
     n = int(rng.integers(1, 9 if (obj in ("mmd", "ws") and ovo) else 12))
-    K = int(rng.integers(2, 6))
+    K = int(rng.integers(2, 6)) if rng.integers(0, 10) else 1   # one case in ten: a single cluster
     mode = rng.choice(["soft", "mid", "sharp", "saturated", "clipped"])
     P = gemlib.gen_P(rng, n, K, "sharp" if mode == "clipped" else mode)
     if mode == "clipped":
